@@ -181,21 +181,29 @@ def check_kernels(repo, chk, tier):
         chk.oblige("E6-dom", "%s: get_amp uses %s, get_sympy_dom uses %s" % (ckey, sorted(kernels) or "inline formula", sorted(doms)), ok)
         if not ok:
             chk.violation("E6-dom", gd.key, "wiring", "get_sympy_dom is wired to %s but the numeric kernel(s) %s require %s" % (sorted(doms), sorted(kernels), sorted(want)), file=cls.mod.rel, line=gd.lineno)
-        # branch agreement: the non-running-width branch picks the fixed-width pair in both
+        # branch agreement: for either value of running_width the class's own get_amp and get_sympy_dom are reciprocal
         if kernels == {"BW", "BWR"}:
-            def first_branch(fn_, names):
-                for n in walk_local(fn_.node):
-                    if isinstance(n, ast.If) and "running_width" in norm_text(n.test) and isinstance(n.test, (ast.UnaryOp, ast.BoolOp)):
-                        s1 = {x.func.id for b in n.body for x in ast.walk(b) if isinstance(x, ast.Call) and isinstance(x.func, ast.Name)} & names
-                        s2 = {x.func.id for b in n.orelse for x in ast.walk(b) if isinstance(x, ast.Call) and isinstance(x.func, ast.Name)} & names
-                        return s1, s2
-                return None
-            a = first_branch(ga, {"BW", "BWR"})
-            b = first_branch(gd, {"BW_dom", "BWR_dom"})
-            ok2 = a is not None and b is not None and {x + "_dom" for x in a[0]} == b[0] and {x + "_dom" for x in a[1]} == b[1]
-            chk.oblige("E6-dom", "%s: `not running_width` selects %s / %s in get_amp and get_sympy_dom alike" % (ckey, a, b), ok2)
-            if not ok2:
-                chk.violation("E6-dom", gd.key, "branch", "get_amp branches %s but get_sympy_dom branches %s on running_width" % (a, b), file=cls.mod.rel, line=gd.lineno)
+            # the barrier radius the class itself sets (init_params); get_sympy_dom relies on BWR_dom's default
+            ip = cls.lookup("init_params")
+            dvals = [n.value for n in walk_local(ip.node) if isinstance(n, ast.Assign) and len(n.targets) == 1 and norm_text(n.targets[0]) == "self.d"] if ip else []
+            if len(dvals) != 1 or not isinstance(dvals[0], ast.Constant) or not isinstance(dvals[0].value, (int, float)):
+                raise AnalysisError("%s.init_params no longer sets self.d to one constant" % ckey)
+            d_cls = sp.nsimplify(dvals[0].value)
+            for rw in (False, True):
+                for L in (0, 1, 2):
+                    Li = sp.Integer(L)
+                    attrs = {
+                        "get_mass": PyFunc(lambda: m0), "get_width": PyFunc(lambda: g0), "running_width": rw,
+                        "bw_l": Li, "d": d_cls, "width_norm": False, "decay": [None],
+                    }
+                    try:
+                        amp = Translator(repo, hooks=hooks, max_depth=7).call_fn(ga, [{"m": m}, {"|q|": p, "|q0|": p0, "|q|2": p ** 2, "|q0|2": p0 ** 2}], self_obj=SelfObj(cls, dict(attrs)))
+                        dom_ = Translator(repo, hooks={FORM + "get_relative_p": relp_hook, BWF + "get_bprime_coeff": coeff_hook}, max_depth=7).call_fn(gd, [m, m0, g0, m1, m2], self_obj=SelfObj(cls, dict(attrs)))
+                    except Unmodelled as e:
+                        raise AnalysisError("%s.get_amp / get_sympy_dom cannot be interpreted (running_width=%s): %s" % (ckey, rw, e))
+                    oblige("E6-dom", "%s: get_sympy_dom * get_amp == 1 (running_width=%s, L=%d)" % (ckey, rw, L), dom_ * amp, sp.Integer(1), gd.key, "branch:running_width=%s,L=%d" % (rw, L), file=cls.mod.rel)
+                    if not rw:
+                        break
 
     # ---- (d) trivial models
     one = tr.call_fn(repo.fn(BWF + "one"), [m])
